@@ -18,17 +18,26 @@ Definition merr {A} (e : err) : M A := (Err e, 0).
 Definition pure {A} (r : res A) : M A := (r, 0).          (* converters, validators: no read *)
 Definition mbind {A B} (m : M A) (f : A -> M B) : M B :=
   match m with
-  | (Ok a, t) => (fst (f a), t + snd (f a))
+  | (Ok a, t) => let (r, t') := f a in (r, t + t')
   | (Err e, t) => (Err e, t)
   end.
 
+Record weights := mkW { wr : Z; wi : Z; wb : Z }.
+Definition W_ticks := mkW 1 1 0.     (* one tick per fp.read call and per loop iteration *)
+Definition W_reads := mkW 1 0 0.
+Definition W_iters := mkW 0 1 0.
+Definition W_bytes := mkW 0 0 1.     (* bytes returned by all fp.read calls *)
+
 Section Twin.
-  Variables wr wi wb : Z.
+  Variable w : weights.
+  Let wr := wr w.
+  Let wi := wi w.
+  Let wb := wb w.
 
   (* one fp.read call that returned [got] bytes, with the outcome [r] of whatever checks its result *)
   Definition charge {A} (got : Z) (r : res A) : M A := (r, wr + wb * got).
   (* one loop iteration (the call of the item reader) *)
-  Definition iter {A} (m : M A) : M A := (fst m, wi + snd m).
+  Definition iter_t {A} (m : M A) : M A := let (r, t) := m in (r, wi + t).
 
   (* utils.read_fmt of [n] bytes decoded by [g]: fp.read(n) returns what is there *)
   Definition fmt_t {A} (n : Z) (g : stream -> res A) (s : stream) : M A := charge (Z.min n (len s)) (g s).
@@ -81,7 +90,7 @@ Section Twin.
         if negb rb then mret ([], s)
         else if match budget with Some b => b <=? 0 | None => false end then mret ([], s)
         else
-          mbind (iter (read_tagged_block_t v padding s)) (fun r =>
+          mbind (iter_t (read_tagged_block_t v padding s)) (fun r =>
           match r with
           | None => mret ([], s)
           | Some (b, s1) =>
@@ -146,7 +155,7 @@ Section Twin.
     | S f =>
         mbind (readable_t 8 s) (fun rb =>
         if rb then
-          mbind (iter (read_range_t s)) (fun '(r, s1) =>
+          mbind (iter_t (read_range_t s)) (fun '(r, s1) =>
           mbind (read_range_list_t f s1) (fun rs => mret (r :: rs)))
         else mret [])
     end.
@@ -162,7 +171,7 @@ Section Twin.
   Fixpoint read_n_t {A} (n : nat) (rd : stream -> M (A * stream)) (s : stream) : M (list A * stream) :=
     match n with
     | O => mret ([], s)
-    | S n' => mbind (iter (rd s)) (fun '(a, s1) => mbind (read_n_t n' rd s1) (fun '(l, s2) => mret (a :: l, s2)))
+    | S n' => mbind (iter_t (rd s)) (fun '(a, s1) => mbind (read_n_t n' rd s1) (fun '(l, s2) => mret (a :: l, s2)))
     end.
 
   Section Charset.
@@ -181,7 +190,7 @@ Section Twin.
       | S f =>
           mbind (readable_t 4 s) (fun rb =>
           if rb then
-            mbind (iter (read_resource_t s)) (fun '(r, s1) =>
+            mbind (iter_t (read_resource_t s)) (fun '(r, s1) =>
             mbind (read_resource_items_t f s1) (fun rs => mret (r :: rs)))
           else mret [])
       end.
@@ -216,14 +225,14 @@ Section Twin.
       match cis with
       | [] => mret ([], s)
       | ci :: cis' =>
-          mbind (iter (read_channel_data_t (ci_len ci - 2) s)) (fun '(c, s1) =>
+          mbind (iter_t (read_channel_data_t (ci_len ci - 2) s)) (fun '(c, s1) =>
           mbind (read_channel_list_t cis' s1) (fun '(l, s2) => mret (c :: l, s2)))
       end.
     Fixpoint read_channel_lists_t (rs : list layer_record) (s : stream) : M (list (list channel_data) * stream) :=
       match rs with
       | [] => mret ([], s)
       | r :: rs' =>
-          mbind (iter (read_channel_list_t (r_channels r) s)) (fun '(l, s1) =>
+          mbind (iter_t (read_channel_list_t (r_channels r) s)) (fun '(l, s1) =>
           mbind (read_channel_lists_t rs' s1) (fun '(ls, s2) => mret (l :: ls, s2)))
       end.
     Definition read_li_body_t (v : Z) (s : stream) : M (layer_info * stream) :=
@@ -283,6 +292,6 @@ End Twin.
 
 (* what the correspondence check evaluates: outcome code, fp.read calls, iterations, bytes returned *)
 Definition observe_cost (b : list Z) : list Z :=
-  let r := read_psd_t 1 0 0 raw_codec b in
+  let r := read_psd_t W_reads raw_codec b in
   [match fst r with Ok _ => 0 | Err e => err_code e end;
-   snd r; snd (read_psd_t 0 1 0 raw_codec b); snd (read_psd_t 0 0 1 raw_codec b)].
+   snd r; snd (read_psd_t W_iters raw_codec b); snd (read_psd_t W_bytes raw_codec b)].
